@@ -142,11 +142,11 @@ def strict_read(cfgs, bits, data, enc, with_sub=True):
     return out, sub
 
 
-def abstract_message(bits, enc, hexbm, nmax, mti='1240', name='data', extra_unconfigured=None):
+def abstract_message(bits, enc, hexbm, nmax, mti='1240', name='data', extra_unconfigured=None, bit1=True):
     """MTI + bitmap (concrete, from the family) + opaque data of symbolic length 0..nmax"""
     N = sym_int(name + '_len', 0, nmax)
     src = Source(name, 'b', N)
-    bm = bitmap_bytes(list(bits) + ([extra_unconfigured] if extra_unconfigured else []))
+    bm = bitmap_bytes(list(bits) + ([extra_unconfigured] if extra_unconfigured else []), bit1)
     if hexbm:
         bm = binascii.hexlify(bm)
     data = src.rope() if not (isinstance(N, int) and N == 0) else b''
